@@ -86,7 +86,13 @@ def work(job):
         if xml is None: xml = C.render(ch, dm)
         for eng in ('large', 'fast'):
             jid = '%s:%s' % (cid, eng)
-            if mode == 'cancel':
+            if mode == 'monitors':
+                # a second monitor is attached at one stable point and detached at a later one: in between it sees exactly what the first one
+                # sees, before and after nothing
+                k = rng.randint(2, 6)
+                ops = ['step0'] * k + ['mon2add'] + ['recv ' + rng.choice(['e1', 'e2', 'e3'])] + ['step0'] * 10 + ['recv ' + rng.choice(['e1', 'e2'])] + ['step0'] * 10 + ['mon2del'] + ['recv ' + rng.choice(['e1', 'e2', 'e3'])] + ['step0'] * 10
+                jobs.append((jid, T.job_text(jid, eng, xml, ops=ops, flags=['novars'])))
+            elif mode == 'cancel':
                 k = rng.randint(1, 8)   # receive() before the first step() is C10's subject
                 # cancel at different points: idle, right after an event was queued, and in the middle of the macrostep it starts
                 mid = rng.randint(0, 3)
@@ -100,7 +106,7 @@ def work(job):
     for jid, (cid, eng, dm, mode, xml, h) in meta.items():
         r = raw.get(jid, {'lines': [], 'crash': 'no result', 'timeout': False})
         rec = {'id': jid, 'mode': mode, 'dm': dm, 'v': 'ok'}
-        lines = [l for l in r['lines'] if not l.startswith('B ')]
+        lines = [l for l in r['lines'] if not l.startswith('B ') and not l.startswith('M2 ')]
         if r['timeout']: rec['v'] = 'timeout'; out.append(rec); continue
         if r['crash']:
             rec['v'] = 'bad'; rec['k'] = 'crash:' + str(r['crash'])[:80]; rec['replay'] = {'xml': xml, 'history': h, 'engine': eng, 'mode': mode, 'stderr': r.get('stderr')}
@@ -113,6 +119,21 @@ def work(job):
         rec['cancelled'] = any(l == 'R 6' for l in lines)
         rec['invocations'] = sum(1 for l in lines if l.startswith('IA '))
         rec['hash'] = jid
+        if not V and mode == 'monitors':
+            # the second monitor's account = the first one's between attach and detach
+            CB = ('E ', 'MB', 'MA', 'XB', 'XA', 'NB', 'NA', 'TB', 'TA', 'CB', 'CA', 'S ', 'KB', 'KA', 'IB', 'IA', 'UB', 'UA')
+            all_ = r['lines']
+            try: a = all_.index('OP mon2add'); b = all_.index('OP mon2del')
+            except ValueError: a = b = None
+            if a is not None:
+                m2 = [l[3:] for l in all_ if l.startswith('M2 ')]
+                m2_in = [l[3:] for l in all_[a:b] if l.startswith('M2 ')]
+                m1_in = [l for l in all_[a:b] if l[:2] in CB and not l.startswith('M2 ')]
+                rec['monitor_callbacks_compared'] = len(m1_in)
+                if len(m2) != len(m2_in): V = [('second-monitor-notified-outside-its-attachment', b, 'callbacks in all: %d, between attach and detach: %d' % (len(m2), len(m2_in)))]
+                elif [l for l in m2_in if l[:2] in CB] != m1_in:
+                    i = next((i for i, (x, y) in enumerate(zip(m2_in, m1_in)) if x != y), min(len(m2_in), len(m1_in)))
+                    V = [('second-monitor-sees-a-different-account', a, 'first difference at callback %d: first monitor %r, second %r (%d vs %d callbacks)' % (i, m1_in[i:i + 1], m2_in[i:i + 1], len(m1_in), len(m2_in)))]
         if V:
             rule, n, text = V[0]
             rec['v'] = 'bad'; rec['k'] = rule
@@ -137,7 +158,7 @@ def main(tier, replay):
     cases = []
     for i in range(n):
         dm = ('lua', 'promela', 'null')[i % 3] if i % 7 else 'null'
-        mode = ('plain', 'error', 'plain', 'cancel', 'error', 'invoke', 'delayed')[i % 7]
+        mode = ('plain', 'error', 'plain', 'cancel', 'error', 'invoke', 'delayed', 'monitors')[i % 8]
         cases.append(('c%d' % i, base + i, dm, mode))
     jobs = [(binary, cases[i:i + 30]) for i in range(0, len(cases), 30)]
     verd = collections.Counter(); tot = collections.Counter()
@@ -164,7 +185,7 @@ def main(tier, replay):
     chk.rule = ('each run = (document, history or API script, engine); all callbacks recorded through InterpreterMonitor are fed to a push-down protocol checker: balanced before/after, '
                 'micro-step phases exits->transitions->entries, nothing outside brackets except event processing/invocation/stable/completion, content inside the bracket of its owner, '
                 'configuration after a micro step explained by reported exits and entries, each log line inside its <log> bracket, exactly one stable notice per macrostep. '
-                'Modes: plain, failing element injected (error path), cancel script, states with inline invoked sessions (invocation brackets, finalize, autoforward), delayed sends whose events arrive from the timer thread while the session is idle (blocking steps). distinct_nontrivial = runs with more than one micro step.')
+                'Modes: plain, failing element injected (error path), cancel script, states with inline invoked sessions (invocation brackets, finalize, autoforward), delayed sends whose events arrive from the timer thread while the session is idle (blocking steps), a second monitor attached and detached at stable points (it must see exactly what the first one sees in between). distinct_nontrivial = runs with more than one micro step.')
     chk.assumptions = ['"executed" is observed through logs/configuration/events only', 'the final exit on completion is reported by the Completion bracket alone (test-lifecycle convention)']
     chk.min_distinct = 100
     chk.finish()
